@@ -14,6 +14,7 @@ histories (kinds attr_hist, eh_hist): ONE section object / ONE EHABIInfo object 
         calls) and with Spec/C20Hist.v (the stateless reference)."""
 import gc, io, itertools, struct
 from tools.lib.framework import impl_call
+from tools.lib.streams import Streams, draw_kind
 
 CLAIMED = True
 CONFIG = {'assumptions': ['attribute strings are compared as UTF-8 bytes; generated strings are valid UTF-8',
@@ -48,7 +49,10 @@ RULE = ('cases: attribute sections of 1..6 vendor subsections x 0..5 file/sectio
         'also occurs with its last word being the last word of the file; every section header field that does not '
         'locate the bytes is drawn (sh_flags without SHF_COMPRESSED, sh_addr, sh_link, sh_info, sh_addralign, sh_entsize '
         '-- for .ARM.exidx 0, 8, 4, 16, 1, 12, 2^31, maximum, random), an .ARM.extab section header with drawn fields '
-        'present or absent; the models take the decoded header; byte-code: every first byte x every operand byte, random instruction '
+        'present or absent; the models take the decoded header; the image is handed to the library as a drawn stream kind '
+        '(BytesIO, buffered file fresh / warmed / small 16-byte buffer / at EOF, mmap, gzip, in-memory with a decoy '
+        'descriptor); in histories on in-memory images the objects (section, subsection, sub-subsection, EHABIInfo, its '
+        'structs, the ELFFile) are also pickled / deep-copied / copied and the copy is used from then on; byte-code: every first byte x every operand byte, random instruction '
         'lists with multi-byte uleb128 operands, raw byte strings. Histories: on sections of 1..4 subsections, call '
         'sequences of 3..16 operations over the section object and every object it hands out (start a walk with or '
         'without vendor/scope/tag limit, next, close, drop, num_*, list property, complete fresh walk, unrelated seek), '
@@ -151,13 +155,28 @@ def build_elf(le, cls, machine, secs, total):
 
 def placement_of(x):
     """(build_elf's total, shf of the main section, extab section or None) of a placement descriptor:
-    n | ['shfirst', n] | ['after' / 'shfirst', n, shf, extab]"""
+    n | ['shfirst', n] | ['after' / 'shfirst', n, shf, extab, stream kind]"""
     if not isinstance(x, list):
         return x, DEFAULT_SHF, None
     total = ['shfirst', x[1]] if x[0] == 'shfirst' else x[1]
     return total, (x[2] if len(x) > 2 else DEFAULT_SHF), (x[3] if len(x) > 3 else None)
 
 
+def stream_kind_of(x):
+    """the kind of stream (tools/lib/streams.py) the image is handed to the library as"""
+    return x[4] if isinstance(x, list) and len(x) > 4 else 'bytesio'
+
+
+def copy_how(how):
+    import copy, pickle
+    if how == 'pickle':
+        return lambda o: pickle.loads(pickle.dumps(o))
+    if how == 'pickle2':
+        return lambda o: pickle.loads(pickle.dumps(o, 2))
+    return copy.deepcopy if how == 'deepcopy' else copy.copy
+
+
+COPY_HOW = ['pickle', 'pickle', 'pickle2', 'deepcopy', 'deepcopy', 'copy']
 EXIDX_ENTSIZES = [0, 8, 4, 16, 1, 12, 2 ** 31]
 ATTR_ENTSIZES = [0, 1, 4, 8, 5]
 
@@ -340,7 +359,7 @@ def rand_entry(rng, kind):
 EH_KINDS = ['cant', 'inline', 't0', 't12', 'gen', 'cidx', 'cinl', 'ctab', 'cmod']
 
 
-def rand_eh_image(rng, kinds, placement=None):
+def rand_eh_image(rng, kinds, placement=None, skind=None):
     """[le, exidx_off, entries(with table offsets), total] : tables are laid out before and after the index;
     total as build_elf takes it.  placement 'eof': the last table entry (or, without tables, the index) ends
     with the last byte of the file."""
@@ -372,7 +391,8 @@ def rand_eh_image(rng, kinds, placement=None):
         start = min(ents[i][0][2] for i in after)
         extab = [start, max(ents[i][0][2] + ents[i][1] for i in after) - start, rand_shf(rng, 32, [0, 4, 8])]
     return [le, exidx_off, [a for a, _ in ents],
-            ['after' if placement == 'after' else 'shfirst', total, rand_shf(rng, 32, EXIDX_ENTSIZES), extab]]
+            ['after' if placement == 'after' else 'shfirst', total, rand_shf(rng, 32, EXIDX_ENTSIZES), extab,
+             skind or draw_kind(rng, 0.7)]]
 
 
 # ------------------------------------------------------------------ histories
@@ -457,7 +477,9 @@ class AttrHistSim:
 DISTURB = [0, 1, 17, 52, 64, 100, 1000, 2 ** 20]
 
 
-def rand_attr_hist(rng, fl, sec, n):
+def rand_attr_hist(rng, fl, sec, n, copies=False):
+    """copies: the objects may be pickled / deep-copied / copied and the copy used from then on (only offered
+    when the file is an in-memory stream: a real file object does not pickle)"""
     sim = AttrHistSim(fl, sec)
     hist = []
 
@@ -466,6 +488,8 @@ def rand_attr_hist(rng, fl, sec, n):
         sim.apply(op)
 
     def query(o):
+        if copies and rng.random() < 0.25:
+            emit(['copy', o, rng.choice(COPY_HOW)])
         r = rng.random()
         if r < 0.4:
             emit(['num', o])
@@ -559,12 +583,17 @@ def rand_attr_hist(rng, fl, sec, n):
 HAS_BYTECODE = ('inline', 't0', 't12')
 
 
-def rand_eh_hist(rng, kinds, n):
+def rand_eh_hist(rng, kinds, n, copies=False):
     nent = len(kinds)
     entries, decs, hist = [], 0, []
     while len(hist) < n:
         r = rng.random()
-        if r < 0.12:
+        if rng.random() < (0.22 if copies else 0.04):
+            if copies and rng.random() < 0.7:
+                hist.append(['copyinfo', rng.choice(COPY_HOW), rng.choice(['info', 'info', 'structs'])])
+            else:
+                hist.append(['reopen', rng.choice(['same'] + (['pickle', 'deepcopy'] if copies else []))])
+        elif r < 0.12:
             hist.append(['num'])
         elif r < 0.42 or not entries:
             k = rng.randrange(nent) if rng.random() < 0.9 else nent + rng.choice([0, 1, 7])
@@ -594,15 +623,16 @@ def gen(ctx):
     for _ in range(500 * T):
         fl = rng.choice(['arm', 'arm', 'riscv'])
         sec = rand_section(rng, fl, rng.choice([1, 2, 2, 3, 3, 4]), [0, 1, 2, 2, 3], [0, 1, 2, 3, 5])
-        hist = rand_attr_hist(rng, fl, sec, rng.choice([3, 4, 6, 8, 12, 16]))
         cls = rng.choice([32, 32, 64])
-        cases.append(('attr_hist', [fl, rng.random() < 0.5, cls, rng.choice([0, 1, 3, 16]),
-                                    rand_post(rng, [0, 1, 5], cls), sec, hist]))
+        post = rand_post(rng, [0, 1, 5], cls)
+        hist = rand_attr_hist(rng, fl, sec, rng.choice([3, 4, 6, 8, 12, 16]), copies=stream_kind_of(post) == 'bytesio')
+        cases.append(('attr_hist', [fl, rng.random() < 0.5, cls, rng.choice([0, 1, 3, 16]), post, sec, hist]))
     # ---------------- histories on one EHABIInfo object, its entries and decoder objects
     for _ in range(150 * T):
         kinds = [rng.choice(EH_KINDS + ['inline', 't0', 't12', 't12']) for _ in range(rng.randint(1, 6))]
         img = rand_eh_image(rng, kinds)
-        cases.append(('eh_hist', img + [rand_eh_hist(rng, kinds, rng.choice([2, 3, 5, 8, 12]))]))
+        cases.append(('eh_hist', img + [rand_eh_hist(rng, kinds, rng.choice([2, 3, 5, 8, 12]),
+                                                     copies=stream_kind_of(img[3]) == 'bytesio')]))
     # ---------------- build attributes
     shapes = []
     for fl in ('arm', 'riscv'):
@@ -706,7 +736,7 @@ class CountingIO(io.BytesIO):
         return super().read(*a)
 
 
-def observe_attr_section(img, name, mode):
+def observe_attr_section(img, name, mode, stream=None):
     from elftools.elf.elffile import ELFFile
     cap = 4 * len(img) + 64
 
@@ -717,7 +747,7 @@ def observe_attr_section(img, name, mode):
             yield x
     # reads are counted too: a walk that the library itself runs to the end (a memo, a list()) on a
     # malformed section that never ends must come back as an observation, not hang the check
-    elf = ELFFile(CountingIO(bytes(img), 200 * len(img) + 5000))
+    elf = ELFFile(stream if stream is not None else CountingIO(bytes(img), 200 * len(img) + 5000))
     sec = elf.get_section_by_name(name)
     out = []
     if mode == 'eager':
@@ -741,11 +771,12 @@ LIST_P = ['subsections', 'subsubsections', 'attributes']
 DROPPED = object()
 
 
-def observe_attr_hist(img, name, hist):
+def observe_attr_hist(img, name, hist, stream=None):
     """the call sequence [hist] on ONE section object (object #0) and the objects it hands out"""
     from elftools.elf.elffile import ELFFile
     from elftools.elf.sections import AttributesSection, AttributesSubsection, AttributesSubsubsection
-    stream = CountingIO(bytes(img), 200 * len(img) + 5000)
+    if stream is None:
+        stream = CountingIO(bytes(img), 200 * len(img) + 5000)
     sec = ELFFile(stream).get_section_by_name(name)
     objs, gens, out = [sec], [], []
 
@@ -768,7 +799,12 @@ def observe_attr_hist(img, name, hist):
     def step(op):
         k = op[0]
         if k == 'disturb':
-            stream.seek(op[1])
+            stream.seek(min(op[1], len(img)))       # an mmap refuses to seek past its end
+            return ['unit']
+        if k == 'copy':
+            if not 0 <= op[1] < len(objs):
+                return ['bad']
+            objs[op[1]] = copy_how(op[2])(objs[op[1]])
             return ['unit']
         if k in ('start', 'num', 'list', 'iter'):
             if not 0 <= op[1] < len(objs):
@@ -811,11 +847,12 @@ def observe_attr_hist(img, name, hist):
     return ['ok', out]
 
 
-def observe_eh_hist(img, hist):
+def observe_eh_hist(img, hist, stream=None):
     """the call sequence [hist] on ONE EHABIInfo object, the entries and the decoder objects it leads to"""
     from elftools.elf.elffile import ELFFile
     from elftools.ehabi.decoder import EHABIBytecodeDecoder
-    info = ELFFile(io.BytesIO(bytes(img))).get_ehabi_infos()[0]
+    elf = ELFFile(stream if stream is not None else io.BytesIO(bytes(img)))
+    info = elf.get_ehabi_infos()[0]
     entries, decs, out = [], [], []
 
     def fields(e):
@@ -827,7 +864,17 @@ def observe_eh_hist(img, hist):
         return ['mnem', None if mn is None else [[bytes(m.bytecode), m.mnemonic] for m in mn]]
 
     def step(op):
+        nonlocal info
         k = op[0]
+        if k == 'copyinfo':
+            if op[2] == 'structs':
+                info._struct = copy_how(op[1])(info._struct)
+            else:
+                info = copy_how(op[1])(info)
+            return ['unit']
+        if k == 'reopen':
+            info = (elf if op[1] == 'same' else copy_how(op[1])(elf)).get_ehabi_infos()[0]
+            return ['unit']
         if k == 'num':
             return ['int', info.num_entry()]
         if k == 'get':
@@ -870,9 +917,9 @@ def first_diff(a, b):
     return None
 
 
-def observe_eh(img, n):
+def observe_eh(img, n, stream=None):
     from elftools.elf.elffile import ELFFile
-    elf = ELFFile(io.BytesIO(bytes(img)))
+    elf = ELFFile(stream if stream is not None else io.BytesIO(bytes(img)))
     infos = elf.get_ehabi_infos()
     e = infos[0].get_entry(n)
     mn = impl_call(e.mnmemonic_array)
@@ -919,9 +966,10 @@ def eh_image(le, exidx_off, size, placement):
     return img, hdrs[0]
 
 
-def rand_post(rng, choices, cls):
+def rand_post(rng, choices, cls, skind=None):
     p = rand_placement(rng)
-    return ['after' if p == 'after' else 'shfirst', 0 if p == 'eof' else rng.choice(choices), rand_shf(rng, cls, ATTR_ENTSIZES)]
+    return ['after' if p == 'after' else 'shfirst', 0 if p == 'eof' else rng.choice(choices), rand_shf(rng, cls, ATTR_ENTSIZES),
+            None, skind or draw_kind(rng, 0.5)]
 
 
 def attr_shape(sec):
@@ -931,6 +979,16 @@ def attr_shape(sec):
 
 
 def evaluate(ctx, cases):
+    with Streams('pv-streams-c20-') as S:
+        return _evaluate(ctx, cases, S)
+
+
+def _evaluate(ctx, cases, S):
+    def opened(desc, img):
+        """the image as the stream kind of the case's placement descriptor (None: the in-memory default)"""
+        kind = stream_kind_of(desc)
+        ctx.bump('stream_kind', kind)
+        return None if kind == 'bytesio' else S.open(bytes(img), kind)
     drv = ctx.driver
     # pass 1: encodings and domain checks from the Coq specification
     reqs = []
@@ -1061,7 +1119,10 @@ def evaluate(ctx, cases):
     for (kind, a), w, m in zip(cases, work, models):
         m = norm_err(m)
         if kind in ('attr', 'attr_mut'):
-            impl = norm_err(impl_call(observe_attr_section, w['img'], w['name'], w['mode']))
+            st = opened(a[4], w['img']) if kind == 'attr' else None
+            impl = norm_err(impl_call(observe_attr_section, w['img'], w['name'], w['mode'], st))
+            if st is not None:
+                S.drop_files()
             nsub, nss = w['shape']
             if kind == 'attr':
                 key = ('attr/2+subsections' if nsub >= 2 else 'attr/2+subsubsections' if nss >= 2 else 'attr/single')
@@ -1074,7 +1135,10 @@ def evaluate(ctx, cases):
                 ctx.bump('attr_mut_outcome', impl[0] if impl[0] == 'ok' else impl[1])
                 ctx.record(kind, a, impl=impl, spec=m, model=m, in_domain=False, nontrivial=True)
         elif kind == 'attr_hist':
-            impl = impl_call(observe_attr_hist, w['img'], w['name'], a[6])
+            st = opened(a[4], w['img'])
+            impl = impl_call(observe_attr_hist, w['img'], w['name'], a[6], st)
+            if st is not None:
+                S.drop_files()
             if isinstance(impl, list) and impl and impl[0] == 'ok':
                 impl = ['ok', [norm_err(x) for x in impl[1]]]
             if isinstance(m, list) and m and m[0] == 'ok':
@@ -1092,7 +1156,10 @@ def evaluate(ctx, cases):
                 ctx.bump('attr_hist_dangling_refs', sum(1 for x in cs[1] if x == ['bad']))
             ctx.record(kind, a, impl=impl, spec=w['exp'], model=m, in_domain=w['wf'], nontrivial=len(a[6]) >= 2, key=key)
         elif kind == 'eh_hist':
-            impl = impl_call(observe_eh_hist, w['img'], a[4])
+            st = opened(a[3], w['img'])
+            impl = impl_call(observe_eh_hist, w['img'], a[4], st)
+            if st is not None:
+                S.drop_files()
             # which index entry an `entry` answer is about: get n registers entry objects in order
             nent, reg, about = len(a[2]), [], []
             for op in a[4]:
@@ -1127,7 +1194,10 @@ def evaluate(ctx, cases):
             ctx.record(kind, a, impl=impl, spec=spec, model=m, in_domain=w['wf'] and not truncated,
                        nontrivial=len(a[4]) >= 2, key=key)
         elif kind == 'eh':
-            impl = norm_err(impl_call(observe_eh, w['img'], w['n']))
+            st = opened(a[3], w['img'])
+            impl = norm_err(impl_call(observe_eh, w['img'], w['n'], st))
+            if st is not None:
+                S.drop_files()
             spec = w['exp'] if w['exp'] is not None else m
             if not w['tblspec']:
                 # eh_table_offset is left open by the specification for this entry kind
